@@ -45,6 +45,21 @@ def make_cases(rng, tier, budget):
                                 ["build", {}, root], ["build", {}, root]]
                         out.append({"cache": ["cache"], "name": "n", "funcs": funcs, "history": hist,
                                     "tag": {"cmp": cmp_, "what": what, "nested": nested, "content_changed": cc, "meta_changed": mc}})
+    # a tampered output NESTED in a container that nothing else would invalidate (no reader of the output inside it):
+    # the container must not be served as it is
+    for cmp_ in ("HASH", "METADATA"):
+        for (cc, mc), mk in muts.items():
+            for outer in ("subbuild", "build_file"):
+                inp, outp = ["nin"], ["nd", "o"]
+                funcs = {"f": {"*": [["ask", "r", "read", inp, cmp_], ["write", ["lit", "ab"]], ["ret", ["digest", ["r"]]]]},
+                         "g": {"*": [["ret", ["lit", 0]]]},
+                         "s2": {"*": [["build_file", "x", outp, cmp_, "f", [], {}], ["ret", ["digest", ["x"]]]]},
+                         "c2": {"*": [["build_file", "x", outp, cmp_, "f", [], {}], ["write", ["digest", ["x"]]], ["ret", ["lit", 1]]]}}
+                root = ([["subbuild", "t", "s2", [], {}], ["ret", ["var", "t"]]] if outer == "subbuild"
+                        else [["build_file", "t", ["container"], cmp_, "c2", [], {}], ["ret", ["var", "t"]]])
+                hist = [["mutate", [["write", inp, "ab"]]], ["build", {}, root], ["mutate", mk(outp)], ["build", {}, root], ["build", {}, root]]
+                out.append({"cache": ["cache"], "name": "n", "funcs": funcs, "history": hist,
+                            "tag": {"cmp": cmp_, "what": "output", "nested": True, "content_changed": cc, "meta_changed": mc}})
     for mk in tricky:
         for what in ("input", "output"):
             inp, outp = ["tin"], ["t", "o"]
